@@ -27,6 +27,7 @@ var checks = map[string]func(*core.Ctx) int{
 	"C17": core.CheckC17,
 	"C18": core.CheckC18,
 	"C19": core.CheckC19,
+	"C20": core.CheckC20,
 }
 
 func main() {
